@@ -212,8 +212,9 @@ func (p *File) newImport(name, pkgPath string) *ast.Ident {
 	if id == nil {
 		id = &ast.Ident{Name: name, Obj: &ast.Object{Data: importUsed(false)}}
 		p.imps[pkgPath] = id
-		p.dirty = true
 	}
+	// every reference handed out may end up in a declaration the last write did not see
+	p.dirty = true
 	return id
 }
 
